@@ -419,7 +419,8 @@ func validateNonEmptyWithAllowNil(v interface{}, _ string, allowNil bool) error 
 
 	val := reflect.ValueOf(v)
 	if val.Kind() == reflect.Array || val.Kind() == reflect.Slice {
-		if val.IsNil() {
+		// arrays can not be nil (and reflect panics when asked)
+		if val.Kind() == reflect.Slice && val.IsNil() {
 			if allowNil {
 				return nil
 			}
